@@ -54,7 +54,8 @@ RULE = ('univariate: 8 families + the selecting wrapper (short candidate lists) 
         'constant columns, hand-made asymmetric correlation dicts; vines: 3-4 columns x ~60 rows x center / direct '
         '/ regular x truncation.  A case is distinct by (class, options, data kind, size, seed path) and '
         'non-trivial when the model was fitted (or is a deliberately unfitted one).')
-PARTIAL = ['vine_relink_partial: object identity is not preserved by from_dict (parents are copies) — proved as stated',
+PARTIAL = ['Props/C14b: roundtrip_todict / roundtrip_iter_todict (to_dict of the restored model equals the original\'s, any number of trips) and vine_relink at full strength (parents of tree k+1 are, by value, edges of tree k; identity of parent objects is provably NOT preserved: vine_relink_identity_counterexample)',
+           'vine_relink_partial: object identity is not preserved by from_dict (parents are copies) — proved as stated',
            'save/load through pickle is not modelled in Lean (assumption: pickle copies the object graph); it is '
            'covered by the behavioural tie only',
            'roundtrip assumes default model options and a constant flag that agrees with _is_constant(): the '
